@@ -829,6 +829,9 @@ class Interp:
             return name in o.attrs or o.cls.lookup(name)[1] is not None
         if isinstance(o, ClassVal):
             return o.lookup(name)[1] is not None
+        if _is_symbolic_value(o) and not isinstance(o, (SInt, SBytes)):
+            # the engine's own object is not the Python object it stands for: never answer hasattr by accident
+            raise Unsupported(f"hasattr({type(o).__name__}, {name!r}) on a symbolic value")
         return hasattr(o, name)
 
     def eval_index(self, s, fr):
